@@ -17,6 +17,7 @@ import (
 
 	"github.com/TarsCloud/TarsGo/tars"
 	"github.com/TarsCloud/TarsGo/tars/protocol/res/adminf"
+	"github.com/TarsCloud/TarsGo/tars/protocol/res/requestf"
 	"github.com/TarsCloud/TarsGo/tars/transport"
 	"github.com/TarsCloud/TarsGo/tars/util/current"
 	"verif/common"
@@ -253,13 +254,32 @@ func judge(q reqSpec, ri rspInfo, served int, queueTimeout bool, handleTimeout b
 
 // ---- (a) sequential matrix ---------------------------------------------------
 
-func matrixScenario(thorough bool) *vm.Scenario {
+// filters: register pre and post server filters that observe the call and return nil (the deprecated
+// but supported RegisterPre/PostServerFilter API); the implementation's outcome must be what the client sees.
+func matrixScenario(thorough bool, filters bool) *vm.Scenario {
 	var bad []string
 	cells := 0
-	sc := &vm.Scenario{Name: "Protocol.Invoke matrix", MaxSteps: 2000000}
+	name := "Protocol.Invoke matrix"
+	if filters {
+		name += " with pre and post server filters"
+	}
+	sc := &vm.Scenario{Name: name, MaxSteps: 2000000}
 	sc.Reset = func() { bad = nil; cells = 0 }
 	sc.Main = func() {
 		tars.VerifNewApp()
+		seenPre, seenPost := 0, 0
+		if filters {
+			tars.RegisterPreServerFilter(func(ctx context.Context, d tars.Dispatch, f interface{}, req *requestf.RequestPacket, resp *requestf.ResponsePacket, withContext bool) error {
+				seenPre++
+				return nil
+			})
+			for i := 0; i < 2; i++ {
+				tars.RegisterPostServerFilter(func(ctx context.Context, d tars.Dispatch, f interface{}, req *requestf.RequestPacket, resp *requestf.ResponsePacket, withContext bool) error {
+					seenPost++
+					return nil
+				})
+			}
+		}
 		_, proto := tars.VerifNewServer(adminf.NewAdminF(), imp{}, true, &transport.TarsServerConf{Proto: "tcp", Address: addr})
 		ids := []int32{1, -1, 1<<31 - 1}
 		if thorough {
@@ -312,7 +332,10 @@ func matrixScenario(thorough bool) *vm.Scenario {
 				}
 			}
 		}
-		vm.Log("cells=%d", cells)
+		vm.Log("cells=%d pre=%d post=%d", cells, seenPre, seenPost)
+		if filters && (seenPre == 0 || seenPost == 0) {
+			bad = append(bad, "matrix:registered-server-filters-never-ran")
+		}
 	}
 	sc.Check = func(r *vm.Result) string {
 		switch r.Status {
@@ -618,7 +641,8 @@ func main() {
 		budget = 10 * time.Minute
 	}
 	if as == "C10" {
-		cases = append(cases, e1.Case{Sc: matrixScenario(run.Thorough()), Opt: vm.Options{Bound: 0, StrictDev: true}, Budget: budget, MinOutcomes: 1})
+		cases = append(cases, e1.Case{Sc: matrixScenario(run.Thorough(), false), Opt: vm.Options{Bound: 0, StrictDev: true}, Budget: budget, MinOutcomes: 1})
+		cases = append(cases, e1.Case{Sc: matrixScenario(run.Thorough(), true), Opt: vm.Options{Bound: 0, StrictDev: true}, Budget: budget, MinOutcomes: 1})
 	}
 	add := func(c netConf, bound int, prune bool) {
 		for pol, pn := range []string{"oldest-first", "newest-first", "round-robin"} {
